@@ -202,9 +202,90 @@ func init() {
 			st.NOutcomes = int(idx)
 			c.Sample(map[string]interface{}{"scenario": "locations-get", "locations": []c14Loc{{"L1", nil, []string{"/a"}}, {"L2", nil, nil}, {"L3", []string{"a"}, []string{"/a/b"}}}, "server_list": []string{"L3", "L1", "LX"}, "request": "a/a/b/c"})
 		}
+		if c.Want("converted-get") {
+			// the same oracle on locations built by the configuration path (location.Reset -> convertConfigs),
+			// with "/" among the prefixes and the request-URIs "*" and "/%61" (the URI is matched as sent)
+			st := c.Stat("converted-get", "enumeration")
+			prefixSets := [][]string{nil, {"/"}, {"/a"}, {"/a", "/"}, {"/", "/a/b"}, {"/b"}}
+			var cshapes []c14Loc
+			for _, hs := range c14HostSets {
+				for _, ps := range prefixSets {
+					cshapes = append(cshapes, c14Loc{Hosts: hs, Prefixes: ps})
+				}
+			}
+			n := 2
+			if c.Thorough() {
+				n = 3
+			}
+			st.Bounds = fmt.Sprintf("%d shapes (prefix sets with \"/\"), ordered lists of <=%d through location.Reset, all server lists, 3 hosts x 8 URIs", len(cshapes), n)
+			uris := append(append([]string(nil), c14URIs...), "*", "/%61/b")
+			names := []string{"L1", "L2", "L3"}
+			var idx int64
+			var rec func(cur []c14Loc)
+			rec = func(cur []c14Loc) {
+				if len(cur) > 0 {
+					idx++
+					if c.Mine(idx) {
+						var lcs []config.LocationConfig
+						var uniq []string
+						for _, l := range cur {
+							lcs = append(lcs, config.LocationConfig{Name: l.Name, Upstream: "u", Hosts: l.Hosts, Prefixes: l.Prefixes})
+							uniq = append(uniq, l.Name)
+						}
+						location.Reset(lcs)
+						for _, sl := range c14ServerLists(uniq) {
+							for _, h := range c14Hosts {
+								for _, u := range uris {
+									st.Execs++
+									got := location.Get(h, u, sl...)
+									best := c14Best(cur, sl, h, u)
+									kase := map[string]interface{}{"locations": cur, "server_list": sl, "host": h, "uri": u, "via": "location.Reset"}
+									if got == nil {
+										if best >= 0 {
+											c.Violation("converted-get", "no-location-although-one-matches", fmt.Sprintf("%v names %v request %s %s: nil, but a class-%d location matches", cur, sl, h, u, best), nil, kase, nil)
+										}
+										continue
+									}
+									var g *c14Loc
+									for i := range cur {
+										if cur[i].Name == got.Name {
+											g = &cur[i]
+										}
+									}
+									named := false
+									for _, nm := range sl {
+										if nm == got.Name {
+											named = true
+										}
+									}
+									switch {
+									case g == nil || !named:
+										c.Violation("converted-get", "location-not-listed-on-server", fmt.Sprintf("%v names %v request %s %s: got %s", cur, sl, h, u, got.Name), nil, kase, nil)
+									case !c14Match(*g, h, u):
+										c.Violation("converted-get", "location-does-not-match", fmt.Sprintf("%v names %v request %s %s: got %v", cur, sl, h, u, *g), nil, kase, nil)
+									case c14Class(*g) != best:
+										c.Violation("converted-get", "less-specific-location-wins", fmt.Sprintf("%v names %v request %s %s: got class %d %v (as configured), a class-%d location matches", cur, sl, h, u, c14Class(*g), *g, best), nil, kase, nil)
+									}
+								}
+							}
+						}
+					}
+				}
+				if len(cur) == n {
+					return
+				}
+				for _, s := range cshapes {
+					s.Name = names[len(cur)]
+					rec(append(append([]c14Loc(nil), cur...), s))
+				}
+			}
+			rec(nil)
+			st.States, st.Transitions, st.Nontrivial = st.Execs, st.Execs, idx
+			st.NOutcomes = int(idx)
+		}
 		if c.Want("chain") {
 			st := c.Stat("chain", "enumeration")
-			st.Bounds = "triples of 8 shapes (512 lists) x 4 server lists x 6 requests through the handler chain"
+			st.Bounds = "triples of 9 shapes (729 lists; one prefix reaches into the query) x 4 server lists x 8 requests (one percent-encoded, one with a query) through the handler chain"
 			cfg := &config.PikeConfig{
 				Caches:    []config.CacheConfig{{Name: "c1", Size: 100, HitForPass: "5m"}},
 				Upstreams: []config.UpstreamConfig{{Name: "uL1"}, {Name: "uL2"}, {Name: "uL3"}},
@@ -213,9 +294,9 @@ func init() {
 			}
 			e := getEnv(cfg, "c14")
 			e.Respond = func(oc *env.OriginCall) env.OriginResp { return env.Uncacheable(oc, "p") }
-			sub := []c14Loc{shapes[0], shapes[1], shapes[2], shapes[4], shapes[5], shapes[6], shapes[10], shapes[19]}
+			sub := []c14Loc{shapes[0], shapes[1], shapes[2], shapes[4], shapes[5], shapes[6], shapes[10], shapes[19], {Prefixes: []string{"/a?"}}}
 			var idx int64
-			reqs := [][2]string{{"a", "/a/b/c"}, {"a", "/b"}, {"b", "/a"}, {"c", "/a/b"}, {"c", "/c"}, {"b", "/"}}
+			reqs := [][2]string{{"a", "/a/b/c"}, {"a", "/b"}, {"b", "/a"}, {"c", "/a/b"}, {"c", "/c"}, {"b", "/"}, {"a", "/%61/b/c"}, {"b", "/a?k=/b"}}
 			for i1, s1 := range sub {
 				for i2, s2 := range sub {
 					for i3, s3 := range sub {
